@@ -117,6 +117,9 @@ pub struct Ctx {
     /// isolation mode: every subject run is first probed (twice if it dies) in a forked child;
     /// a subject that kills its child both times is reported and not run in this process
     pub probe: bool,
+    /// known-finding matchers (to tell whether a death is an unmatched violation) and their count so far
+    pub known: Vec<serde_json::Map<String, Value>>,
+    pub unmatched_deaths: u64,
     pub acc: Acc,
     pub progress: Progress,
     pub idx: u64,
@@ -178,6 +181,8 @@ impl Ctx {
             thorough,
             only: None,
             probe: false,
+            known: vec![],
+            unmatched_deaths: 0,
             acc: Acc::default(),
             progress: Progress::none(),
             idx: 0,
@@ -199,6 +204,9 @@ impl Ctx {
         let site = format!("{} / {}", d.how, crate::iso::abort_site(&d.stderr));
         let case_id = format!("{}/{}/{}:{}:{}", self.family, self.idx, entry, cfg, ts);
         let class = json!({"family": self.family, "entry": entry, "kind": kind, "site": site});
+        if !crate::iso::is_known(&self.known, &class) {
+            self.unmatched_deaths += 1;
+        }
         let key = format!("{}|{}|{}", self.family, entry, site);
         let e = self.acc.fails.entry(key).or_insert((0, vec![]));
         e.0 += 1;
